@@ -258,9 +258,10 @@ def tolfail_case(case):
     if exc is None or driver.budget_hit(exc):
         r.add("no_giveup_within_budget"); r.out(("tolfail", name, "no give-up"))
         return r
-    if not isinstance(exc.__cause__, de.exception_types.FailedToMeetTolerances):
-        r.v(key("exception"), "unmet tolerances raise the integration failure carrying the original cause", case, observed=repr(exc.__cause__)[:200], expected="FailedToMeetTolerances")
+    if exc.__cause__ is None:
+        r.v(key("exception"), "unmet tolerances raise the integration failure carrying the original cause", case, observed="FailedIntegration without a cause", expected="a cause (FailedToMeetTolerances, or the numerical error met at the singularity)")
         return r
+    r.add("cause_" + type(exc.__cause__).__name__)
     if not status_ok(a, "Boom"):
         r.v(key("status"), "the status reports the failure", case, observed=dict(status=a.integration_status[:160], success=bool(a.success)), expected="failure status, success False")
     ok = driver.segment_invariants(r, "C12/prefix/%s/tolerances" % name, case, a.t, a.y, 0, len(a) - 1, float(a.t[-1]), dtype(t0), y0, dtype)
